@@ -1206,22 +1206,36 @@ func c12FourthRound(ctx *Ctx, r *Report, p *packages.Package) {
 			r.Undecided("anchor lost: jsonschema.definitionNameFromRef")
 		} else {
 			pct, tilde, slash := false, false, false
+			// the function itself, or a helper of the package it hands the segment to
+			bodies := []ast.Node{fd.Body}
 			ast.Inspect(fd.Body, func(m ast.Node) bool {
-				switch x := m.(type) {
-				case *ast.CallExpr:
-					if f := callee(fp.TypesInfo, x); f != nil && f.Pkg() != nil && f.Pkg().Path() == "net/url" && (f.Name() == "PathUnescape" || f.Name() == "QueryUnescape") {
-						pct = true
-					}
-				case *ast.BasicLit:
-					switch x.Value {
-					case `"~0"`:
-						tilde = true
-					case `"~1"`:
-						slash = true
+				if c, ok := m.(*ast.CallExpr); ok {
+					if f := callee(fp.TypesInfo, c); f != nil && f.Pkg() == fp.Types {
+						if hfd, _ := ctx.DeclOf(f); hfd != nil && hfd.Body != nil && hfd != fd {
+							bodies = append(bodies, hfd.Body)
+						}
 					}
 				}
 				return true
 			})
+			for _, b := range bodies {
+				ast.Inspect(b, func(m ast.Node) bool {
+					switch x := m.(type) {
+					case *ast.CallExpr:
+						if f := callee(fp.TypesInfo, x); f != nil && f.Pkg() != nil && f.Pkg().Path() == "net/url" && (f.Name() == "PathUnescape" || f.Name() == "QueryUnescape") {
+							pct = true
+						}
+					case *ast.BasicLit:
+						switch x.Value {
+						case `"~0"`:
+							tilde = true
+						case `"~1"`:
+							slash = true
+						}
+					}
+					return true
+				})
+			}
 			r.Check(pct && tilde && slash, "roundtrip/ref-name-decoded", "jsonschema.definitionNameFromRef decodes the location's last segment", fd.Pos(), "percent-decoding and JSON Pointer unescaping are undone",
 				"the object is named after the last segment of the reference's location taken as is, i.e. still escaped: #/definitions/My%20Type declares an object called `My%20Type` — not its own name — and the emitted key / reference pair no longer resolves")
 		}
